@@ -28,8 +28,8 @@ import (
 	"github.com/33cn/chain33/queue"
 	_ "github.com/33cn/chain33/system/address"     // btc, btcMultiSign, utxo, eth address drivers
 	_ "github.com/33cn/chain33/system/crypto/init" // signature drivers
-	_ "github.com/33cn/chain33/system/dapp/init"   // system executors (executor addresses, per-executor sign types, forks)
 	dapp "github.com/33cn/chain33/system/dapp"
+	_ "github.com/33cn/chain33/system/dapp/init" // system executors (executor addresses, per-executor sign types, forks)
 	"github.com/33cn/chain33/types"
 )
 
